@@ -387,7 +387,7 @@ func TestVerif_C01_pipeline(t *testing.T) {
 	s := c01New(t, "C01", "pipeline",
 		"API-level request specs: method; URL/base URL/scheme/path maps/query maps from the url lane's generators; client-level headers (nil, empty, 0..6 keys) and request-level headers with overlapping keys in the same (canonical or non-canonical) and in another spelling, no value, the empty string, several values, Host / Cookie / Content-Type entries, assigned as maps or registered through the setters; 0..3 client and request cookies with names and values holding spaces, commas, semicolons, quotes, CR/LF, non-ASCII; body none / bytes / string / io.Reader / GetBody func / marshalled map, sizes 0..64 KiB; AllowGetMethodPayload on/off; a fifth of the requests is RETRIED once or twice (first attempts answered 503) and a fifth is SENT A SECOND TIME through the same *Request: every attempt must be the request the model describes; captured: the *http.Request of every attempt (method, URL, Host, header map, ContentLength, body bytes); non-trivial = request reached the transport")
 	c01LanePipe(t, s, "plain", verifh.N(4000, 100000))
-	s.Need(t, "sent", "err", "cookies", "body:none", "body:bytes", "body:string", "body:reader", "body:func", "body:json", "attempt:2", "attempt:3", "second-send", "via-setters", "edited-transmission", "edit:rpath", "edit:cpath", "edit:rquery", "edit:cquery", "edit:url", "edit:header", "edit:cookie", "edit:body", "edit:method")
+	s.Need(t, "sent", "err", "cookies", "body:none", "body:bytes", "body:string", "body:reader", "body:func", "body:json", "attempt:2", "attempt:3", "second-send", "via-setters", "edited-transmission", "resend-sequence", "edit:rpath", "edit:cpath", "edit:rquery", "edit:cquery", "edit:url", "edit:header", "edit:cookie", "edit:body", "edit:method")
 	s.Finish()
 }
 
@@ -573,6 +573,13 @@ func c01LanePipe(t *testing.T, s *c01Sess, profile string, n int) {
 				s.Count("edited-transmission")
 			}
 			s.Case(l, a, true, class, k == 0, fmt.Sprintf("attempt %d of %d: %s", k+1, len(capt.attempts), human))
+		}
+		// the whole SEQUENCE against the state machine of the model (ResendEdit.run: what each pass
+		// writes into Request.Headers / Request.Cookies is carried to the next one by the MODEL)
+		if tc.after != nil && len(capt.attempts) == wantAttempts {
+			s.Count("resend-sequence")
+			s.Case(fmt.Sprintf("c01resend %d ", tc.retries)+strings.TrimPrefix(line, "c01pipe ")+" "+strings.TrimPrefix(c01PipeLine(tc.after, tc, false), "c01pipe "),
+				strings.Join(capt.attempts, " | "), true, class, true, "sequence send, edit, "+fmt.Sprintf("%d retries (0 = second send): ", tc.retries)+human)
 		}
 	}
 }
